@@ -133,6 +133,12 @@ def check(ctx):
     S.check_derived_impls(ctx, "R-5", {"core::clone::Clone"})
     check_is_empty(ctx, "R-3")
 
+    # ---- "... are what is placed into the to-be-signed, to-be-MACed and AEAD additional-data structures": each structure
+    # function puts its header parameters into the slots of the RFC layout and every carrier routes its own stored header(s)
+    # to the right parameter (the recognisers of C03-C05 R-2 / R-3 under this property's name) --------------------------------
+    for _sfn in ("sign::sig_structure_data", "mac::mac_structure_data", "encrypt::enc_structure_data"):
+        S.check_assembly(ctx.under("R-4", "layout"), "R-2", _sfn)
+        S.check_routing_inlined(ctx.under("R-4", "routing"), "R-3", _sfn)
     # ---- R-4 nobody re-encodes --------------------------------------------------------------------------------------
     cb = "header::ProtectedHeader::cbor_bstr"
     tovec_callers = []
